@@ -830,14 +830,17 @@ func extMaphashWrite(fr *frame, args []value) value {
 		if i.ex.hashUF && i.ex.job.Concrete == nil {
 			s.h = i.b.UF("mh_step", SBV64, s.h, c)
 		} else {
-			// FNV-1a step: a concrete, injective-per-byte mixing function
-			s.h = i.b.Bin(OMul, i.b.Bin(OBXor, s.h, i.b.ZExt(c, SBV64)), i.b.BV(SBV64, 0x100000001b3))
+			// rotate-xor step: a concrete mixing function without
+			// multiplication, so that (in)equality of hashes is cheap to
+			// decide; collisions exist for longer inputs and are explored
+			rot := i.b.Bin(OBOr, i.b.Bin(OShl, s.h, i.b.BV(SBV64, 9)), i.b.Bin(OLShr, s.h, i.b.BV(SBV64, 55)))
+			s.h = i.b.Bin(OBXor, rot, i.b.ZExt(c, SBV64))
 		}
 	}
 	if i.ex.hashUF {
 		i.ex.run.noteStub("hash/maphash: Sum64 is an uninterpreted function of the bytes written (collisions explored)")
 	} else {
-		i.ex.run.noteStub("hash/maphash: Sum64 is modelled by FNV-1a over the bytes written")
+		i.ex.run.noteStub("hash/maphash: Sum64 is modelled by a rotate-xor mix of the bytes written")
 	}
 	if _, ok := args[1].(*Term); ok {
 		return iface{}
